@@ -368,7 +368,7 @@ def check_snapshot_selection(prog, r):
         tabs, uni_all, bad_shape = [], {"is_filtered"}, None
         rows_ = []
         for kind, ck, fv, bi in sels:
-            if kind != "filter" or ck is None:
+            if kind not in ("filter", "filter_map") or ck is None:      # filter_map: the entry is kept when the closure yields Some
                 bad_shape = "an element-dropping adaptor `%s` is applied to the path list" % kind
                 break
             rws, cfv = predicates.rows(prog, ck, _entry_atom)
